@@ -47,7 +47,8 @@ PROPS = {
                        dict(pkg=LIVESIM, hdir="livesim", files=["common", "c07"], test="TestVerifC07X", env=dict(VERIF_C07X_ORDER="rev"))]),
     "C08": dict(pkg=LIVESIM, hdir="livesim", files=["common", "c08"], race=False, resume=True, tmo=(900, 3600),
                 extra=[dict(pkg=RECV, hdir="receiver", files=["common", "c08r"], test="TestVerifC08R"),
-                       dict(pkg="pkg/chunkparser", hdir="chunkparser", files=["common", "c08p"], test="TestVerifC08P")]),
+                       dict(pkg="pkg/chunkparser", hdir="chunkparser", files=["common", "c08p"], test="TestVerifC08P"),
+                       REASK("patterns")]),
     "C09": dict(pkg=LIVESIM, hdir="livesim", files=["common", "c09"], race=False, tmo=(600, 3600),
                 extra=[REASK("chunked")]),
     "C10": dict(pkg=LIVESIM, hdir="livesim", files=["common", "c10"], race=False, tmo=(600, 3600),
